@@ -8,12 +8,20 @@ assignment is compiled only on BSD/macOS (`record = false` on Linux); the repair
 on every platform (`record = true`).
 -/
 import Just.Model.Run
+import Just.Generated.Tables
 namespace Just.Signals
 open Just.Run (Status Err)
 
 inductive Sig where
   | hup | int | quit | term
   deriving DecidableEq, Repr, Inhabited
+
+/-- the variant's name in `enum Signal` (src/signal.rs) -/
+def Sig.variant : Sig → String
+  | .hup => "Hangup"
+  | .int => "Interrupt"
+  | .quit => "Quit"
+  | .term => "Terminate"
 
 def Sig.num : Sig → Nat
   | .hup => 1
